@@ -146,6 +146,10 @@ func c02GenHistory(r *Rng) c02History {
 		}
 		k := r.Intn(20)
 		switch {
+		case k == 3 && r.Fork(uint64(s)).Chance(1, 3):
+			// a settings change while documents are open: the server re-reads the workspace, the open documents keep
+			// their editor text
+			h.Steps = append(h.Steps, c02Step{Op: "config", Doc: d})
 		case k == 0:
 			h.Steps = append(h.Steps, c02Step{Op: "close", Doc: d})
 			open[d] = false
@@ -404,6 +408,14 @@ func c02RunHistory(c *Ctx, srv *Server, ws *Workspace, idx int, h c02History) bo
 			ws.Write(fmt.Sprintf("h%d_d%d.lua", idx, d), st.Text)
 			srv.DidSave(uris[d], st.Text)
 			c.Count("op_save", 1)
+		case "config":
+			// every notification differs from the one before (one check flag alternates), so the server acts on it
+			w := map[string]interface{}{}
+			for i, kk := range checkFlagNames {
+				w[kk] = !(i == 4 && (idx+si)%2 == 1)
+			}
+			srv.Notify("workspace/didChangeConfiguration", map[string]interface{}{"settings": map[string]interface{}{"luahelper": map[string]interface{}{"Warn": w, "base": map[string]interface{}{}}}})
+			c.Count("op_config", 1)
 		case "change":
 			version++
 			for _, ch := range st.Changes {
